@@ -11,6 +11,7 @@ import (
 	spb "github.com/openconfig/gribi/v1/proto/service"
 
 	"verifharness/canon"
+	"verifharness/drv"
 	"verifharness/ev"
 	"verifharness/gen"
 	"verifharness/mon"
@@ -25,6 +26,9 @@ type node struct {
 	nhg    uint64   // for top-level entries
 	nhgNI  string   // "" = own
 	backup uint64
+	// rawID / rawPfx override the key taken from the space (scale jobs)
+	rawID  uint64
+	rawPfx string
 }
 
 func (n node) op(g *gen.Gen, kind spb.AFTOperation_Operation) gen.OpSpec {
@@ -41,8 +45,14 @@ func (n node) op(g *gen.Gen, kind spb.AFTOperation_Operation) gen.OpSpec {
 			p.BackupNextHopGroup = gen.U(n.backup)
 		}
 		s.Op.GetNextHopGroup().NextHopGroup = p
+		if n.rawID != 0 {
+			s.Op.GetNextHopGroup().Id = n.rawID
+		}
 	case canon.V4:
 		s.Op.GetIpv4().Ipv4Entry = &aftpb.Afts_Ipv4Entry{NextHopGroup: gen.U(n.nhg)}
+		if n.rawPfx != "" {
+			s.Op.GetIpv4().Prefix = n.rawPfx
+		}
 		if n.nhgNI != "" {
 			s.Op.GetIpv4().Ipv4Entry.NextHopGroupNetworkInstance = gen.S(n.nhgNI)
 		}
@@ -139,6 +149,22 @@ func runJob(run *ev.Run, j job) {
 			if len(x.M.Held) > 0 {
 				run.Count("primary_raised_its_own_election_id_while_operations_were_held", 1)
 			}
+		}
+		if j.via > 0 && r.Intn(8) == 0 {
+			// a standby comes and goes (negotiates, perhaps announces a lower id, half-closes):
+			// what is held for the primary is none of its business
+			st := drv.OpenModify(x.Srv)
+			b := &drv.Session{Stream: st, Name: "standby", DefaultNI: g.S.Default}
+			if _, err := b.Params(drv.SinglePrimary(false)); err != nil {
+				probs = append(probs, "INCONCLUSIVE|the standby could not negotiate: "+err.Error())
+			} else if r.Intn(2) == 0 {
+				b.Elect(&spb.Uint128{High: 0, Low: 7})
+			}
+			b.CloseSend()
+			st.WaitEnd()
+			x.Trace = append(x.Trace, "a standby session negotiated and left")
+			probs = append(probs, x.Compare()...)
+			run.Count("standby_sessions_that_came_and_went", 1)
 		}
 		res, p := x.Do(s)
 		probs = append(probs, p...)
@@ -303,6 +329,26 @@ func TestCheck(t *testing.T) {
 			continue
 		}
 		jobs = append(jobs, job{id: id, nodes: nodes, order: r.Perm(len(nodes)), noFwd: i%5 == 4, perturb: true})
+	}
+	// scale: thousands of operations held at the same time (groups waiting for a
+	// next-hop that never comes), next to chains whose next-hop arrives last
+	for k := 0; k < run.Pick(3, 8); k++ {
+		var nodes []node
+		for q := 0; q < 3000+400*k; q++ {
+			nodes = append(nodes, node{t: canon.NHG, ni: "VRF2", key: 0, nhs: []uint64{3}, rawID: uint64(5000 + q)})
+		}
+		for c := 0; c < 4; c++ {
+			nodes = append(nodes, node{t: canon.V4, ni: "DEFAULT", key: c % 2, nhg: uint64(1 + c%3), rawPfx: fmt.Sprintf("10.%d.0.0/16", 100+c)})
+		}
+		for c := 0; c < 3; c++ {
+			nodes = append(nodes, node{t: canon.NHG, ni: "DEFAULT", key: c, nhs: []uint64{1}})
+		}
+		nodes = append(nodes, node{t: canon.NH, ni: "DEFAULT", key: 0})
+		order := make([]int, len(nodes))
+		for q := range order {
+			order[q] = q
+		}
+		jobs = append(jobs, job{id: fmt.Sprintf("scale-%d#0", k), nodes: nodes, order: order, via: k % 2})
 	}
 	ev.Parallel(len(jobs), ev.Workers(), func(i int) {
 		if run.Want(jobs[i].id) {
